@@ -16,7 +16,7 @@ var ListFns = map[string]bool{
 
 // NullKinds enumerates the null-like items of C13: nil, Null(), and items
 // built only from such items.
-var NullKinds = []string{"nil", "nilstmt", "nilgroup", "Null", "emptystmt", "Add()", "List()", "Union()", "Tag(nil)", "Tag(map{})", "Null.Null", "stmt-of-nulls", "List(nil,Null)", "Add(List())", "Union(nil)", "Custom(nulls)", "CustomMulti(nulls)", "CustomMulti()", "List(CustomMulti(nil))", "CustomFunc(nulls)"}
+var NullKinds = []string{"nil", "nilstmt", "nilgroup", "Null", "emptystmt", "Add()", "List()", "Union()", "Tag(nil)", "Tag(map{})", "Null.Null", "stmt-of-nulls", "List(nil,Null)", "Add(List())", "Union(nil)", "Custom(nulls)", "CustomMulti(nulls)", "CustomMulti()", "List(CustomMulti(nil))", "CustomFunc(nulls)", "deepAdd(24)", "deepMixed(18)", "deepList(40)"}
 
 // NullItem builds the null-like item of the given kind.
 func NullItem(kind string) *recipe.Node {
@@ -62,6 +62,25 @@ func NullItem(kind string) *recipe.Node {
 		return recipe.S().C("Custom", &recipe.Opts{Multi: true, Separator: ";"})
 	case "List(CustomMulti(nil))":
 		return recipe.S().C("List", recipe.S().C("Custom", &recipe.Opts{Multi: true}, recipe.Nil()))
+	case "deepAdd(24)", "deepMixed(18)", "deepList(40)":
+		// nulls nested many levels deep are still nulls
+		depth := map[string]int{"deepAdd(24)": 24, "deepMixed(18)": 18, "deepList(40)": 40}[kind]
+		n := recipe.Null()
+		for i := 0; i < depth; i++ {
+			switch {
+			case kind == "deepAdd(24)":
+				n = recipe.S().C("Add", n)
+			case kind == "deepList(40)":
+				n = recipe.S().C("List", n, recipe.Nil())
+			case i%3 == 0:
+				n = recipe.S().C("Add", recipe.Nil(), n)
+			case i%3 == 1:
+				n = recipe.S().C("List", n)
+			default:
+				n = recipe.S().C("Union", n, recipe.S())
+			}
+		}
+		return n
 	case "CustomFunc(nulls)":
 		n := recipe.S()
 		n.Calls = append(n.Calls, recipe.Call{Fn: "CustomFunc", Opts: &recipe.Opts{Multi: true}, Items: []*recipe.Node{recipe.Null(), recipe.Nil()}})
